@@ -1014,7 +1014,7 @@ def discharge(ob, timeout_ms=10000, rep=None):
         base += core.str_distinct_facts()
         rw = div_cancel_rewrite(base, ob.goal)
         for b_, g_ in ([rw] if rw is not None else []) + [(base, ob.goal)]:
-            s1 = _solver(min(timeout_ms, 3000))
+            s1 = _solver(min(timeout_ms, 1500))
             s1.add(*b_)
             s1.add(z3.Not(g_))
             s1.add(*core.list_axiom_instances(list(b_) + [g_]))
@@ -1043,12 +1043,12 @@ def discharge(ob, timeout_ms=10000, rep=None):
     s.add(z3.Not(goal))
     s.add(*core.list_axiom_instances(list(assumptions) + [goal]))
     if ob.kind != "cover":
-        s.set("timeout", min(int(timeout_ms), 6000))  # first a short attempt, then other seeds, then the full budget
+        s.set("timeout", min(int(timeout_ms), 2000))  # first a short attempt, then other arithmetic solvers / seeds, then the full budget
     r = s.check()
     ob.backend = "z3"
     if r == z3.unknown and ob.kind != "cover":
         # z3's nonlinear search is sensitive to incidental term order: retry with other seeds / arithmetic solvers before giving up
-        for attempt, opts in enumerate(({"random_seed": 7}, {"random_seed": 23, "arith.solver": 2}, {"random_seed": 101, "arith.nl.order": True}, {})):
+        for attempt, opts in enumerate(({"arith.solver": 2}, {"random_seed": 7}, {"random_seed": 23, "arith.solver": 2}, {"random_seed": 101, "arith.nl.order": True}, {})):
             s2 = _solver(6000 if opts else timeout_ms)
             for k, v in opts.items():
                 try:
